@@ -5,6 +5,7 @@ package main
 
 import (
 	"bytes"
+	"encoding/hex"
 	"errors"
 	"fmt"
 	"net"
@@ -360,6 +361,80 @@ func nearTarget(name string, iat int, bias bool, seedNo int, seed int64) mc.Scen
 			if !bytes.Equal(rs.Payload, want) {
 				fail(c, "prefix", "near/stream", "the reference client decoded %d bytes, the server wrote %d (first difference at %d)", len(rs.Payload), len(want), firstDiff(want, rs.Payload))
 			}
+		},
+	}
+}
+
+// tinyTable: bridges whose length table is a single tiny value (2..16 bytes: a
+// paranoid-mode write is shorter than a frame header); every write size must
+// still be delivered.
+func tinyTable(name string, iat int, seedHex string, seed int64) mc.Scenario {
+	return mc.Scenario{
+		Name:   name,
+		Params: map[string]any{"iat": iat, "drbg_seed": seedHex},
+		Weight: 30,
+		Run: func(c *mc.Ctx) {
+			id := o4h.NewBridge(seed, "c01/tiny", iat, false).ID
+			ls, _ := hex.DecodeString(seedHex)
+			br := &o4h.Bridge{ID: id, Seed: ls, IAT: iat}
+			o4h.SetBias(false)
+			rnd.Install(rnd.New(seed, "c01-"+name))
+			refRnd := rnd.New(seed, "c01-ref-"+name)
+			sf, err := br.ServerFactory()
+			if err != nil {
+				fail(c, "setup", "setup", "ServerFactory: %v", err)
+				return
+			}
+			cw, sw := wire.Pipe("client", "server")
+			var wrapErr, refErr, wErr error
+			var rs *o4h.RefSession
+			var want []byte
+			res := sched.Run(c, sched.Options{NoPreempt: true, NoEarlyTimers: true, MaxSteps: 5_000_000}, func() {
+				s := sched.Cur()
+				s.Spawn("ref-client", func() {
+					rs, _, refErr = o4h.RefClient(cw, br.ID.Pub[:], br.ID.NodeID[:], o4h.ClientOpts{PadLen: 90}, refRnd)
+					if refErr != nil {
+						cw.Close()
+						return
+					}
+					for {
+						if _, err := rs.RecvOnce(); err != nil {
+							break
+						}
+					}
+				})
+				var conn net.Conn
+				conn, wrapErr = sf.WrapConn(sw)
+				if wrapErr != nil {
+					return
+				}
+				for i, size := range []int{1, 2, 5, 13, 30, 100, 1500} {
+					p := o4h.Pattern(byte('a'+i), len(want), size)
+					if n, err := conn.Write(p); err != nil || n != size {
+						wErr = fmt.Errorf("Write(%d) = %d, %v", size, n, err)
+						return
+					}
+					want = append(want, p...)
+				}
+				conn.Close()
+			})
+			table := ref.NewDist(ls, 0, 1448, false).Abs()
+			if len(res.Panics) > 0 {
+				fail(c, "no-panic", "tiny-table/panic", "length table %v, iat-mode %d: %s", table, iat, res.Panics[0])
+				return
+			}
+			if res.Livelock {
+				fail(c, "delivery", "tiny-table/livelock", "length table %v, iat-mode %d: Write did not return within the step budget", table, iat)
+				return
+			}
+			if wrapErr != nil || refErr != nil || wErr != nil {
+				fail(c, "io-error", "tiny-table/io-error", "length table %v: WrapConn=%v ref=%v write=%v", table, wrapErr, refErr, wErr)
+				return
+			}
+			if !bytes.Equal(rs.Payload, want) {
+				fail(c, "prefix", "tiny-table/stream", "length table %v, iat-mode %d: the reference client decoded %d bytes, the server wrote %d (error %v)", table, iat, len(rs.Payload), len(want), rs.RxErr)
+			}
+			c.Observe("table", fmt.Sprint(table))
 		},
 	}
 }
@@ -907,6 +982,12 @@ func main() {
 				for sd := 0; sd < K+1; sd++ {
 					emit(nearTarget(fmt.Sprintf("near-target/iat%d/bias=%v/seed%d", iat, bias, sd), iat, bias, sd, cfg.Seed))
 				}
+			}
+		}
+		// single-value tables 3, 11, 12, 14, 16 (seeds found once by the C09 search)
+		for _, sd := range []string{"6709291d08f72e377bb31ab90c3f61b3fc173d81005a75cd", "3735d4d755d55ed64d05a51694285fb88669ce9abf1c819c", "118bf1269b33352fe39dc6f1d1e60ef037ad14ff9faf33ae", "d07c6ff48ded06ea6203c5edb3d06ba14d9f372127ff1638", "935ec7bd553632d5c030155863f84d421277ae4b3b2c428f"} {
+			for iat := 0; iat <= 2; iat++ {
+				emit(tinyTable(fmt.Sprintf("tiny-table/iat%d/%s", iat, sd[:8]), iat, sd, cfg.Seed))
 			}
 		}
 		for _, bias := range []bool{false, true} {
